@@ -1,6 +1,6 @@
 """C27 — output and progress independent of how the application paces its calls."""
 from hypothesis import strategies as st
-from props.common import svt, gens, summarize_cfg, first_difference, run_status
+from props.common import svt, gens, summarize_cfg, first_difference, run_status, diff_region
 
 ID = "C27"
 LEVEL = "exploration"
@@ -28,7 +28,7 @@ def strategy(tier):
     @st.composite
     def s(draw):
         c, n, tp = draw(gens.cfg(max_dim=128, frames=(1, 120 if tier == "thorough" else 60), allow_twopass=False, lps=(1, 2, 4, 8), presets=(8, 8, 8, 7, 6), tools_p=1,
-                                 allow_rc=False, allow_superres=False, exclude=("AQ1", "GRAIN", "OVL", "SRES", "2PASS")))
+                                 allow_rc=False, allow_superres=False, exclude=("AQ1", "GRAIN", "OVL", "SRES", "2PASS", "16BP")))
         c["recon_enabled"] = draw(st.sampled_from([0, 1]))
         c.pop("speed_control_flag", None)
         cnt = draw(gens.content(kinds=(0, 2, 3, 5)))
@@ -76,7 +76,7 @@ def run_case(case, tier):
                 completing += 1
                 d = first_difference(ref, r)
                 if d:
-                    viol.append(dict(key="C27|output-differs", what="pattern %s vs drain-every-send: %s" % (pat[:12], d)))
+                    viol.append(dict(key="C27|output-differs" + ("|eos-tail" if diff_region(d, ref, base["cfg"].get("hierarchical_levels", 4)) == "eos-tail" else ""), what="pattern %s vs drain-every-send: %s" % (pat[:12], d)))
             elif s.startswith("hang:deadlock") and st0 == "ok":
                 viol.append(dict(key="C27|pattern-deadlocks|" + str(r.hang.get("where")), what="pattern %s: deadlock signature outside send_picture: %s" % (pat[:12], r.hang)))
         inc = None
